@@ -13,6 +13,11 @@ A *spec* is a plain JSON-able dict (so that every case replays exactly):
   settings: [start, end, dt]
   programs: (optional) {"start": year, "progs": [{name, target_comps, spend, unit_cost, continuous: bool}],
                         "covouts": [{par, pop, baseline, progs: {prog: outcome}}]}   -> ProgramSet + ProgramInstructions (see `build_programs`)
+  pop_types: (optional) ["ta", "tb"] several population types (see `build_typed`): "pop_type_of": {pop: type}; comps / characs / pars /
+             transfers entries carry "pop_type"; interactions carry "from_type" / "to_type" (default: the first type)
+  scenarios: (optional) [{"par", "pop", "t": [...], "y": [...], "interp": "linear"|"previous", "group": id|None, "hi": year|None}]
+             parameter scenarios applied to the parset through `ParameterScenario.get_parset` (entries with the same "group" form
+             ONE scenario); "hi" closes the skip window of a function parameter at that year (`Parameter.skip_function = (lo, hi)`)
 """
 from __future__ import annotations
 
@@ -130,12 +135,128 @@ def build_data(spec, fw):
     return data
 
 
+def _type_of(spec, item):
+    return item.get("pop_type") or spec["pop_types"][0]
+
+
+def pops_of_type(spec, t):
+    if not spec.get("pop_types"):
+        return list(spec["pops"])
+    pt = spec.get("pop_type_of") or {}
+    return [p for p in spec["pops"] if (pt.get(p) or spec["pop_types"][0]) == t]
+
+
+def pops_of_item(spec, item):
+    """the populations a compartment / characteristic / parameter entry of the spec exists in"""
+    return pops_of_type(spec, _type_of(spec, item)) if spec.get("pop_types") else list(spec["pops"])
+
+
+def build_framework_typed(spec):
+    """framework with several population types: every compartment / characteristic / parameter belongs to one type, one transition
+    matrix per type, interactions from one type to another"""
+    import atomica as at
+
+    types = spec["pop_types"]
+    fw = at.ProjectFramework()
+    fw.sheets["population types"] = [_df(["code name", "description"], [[t, t.upper() + " type"] for t in types])]
+    fw.sheets["databook pages"] = [_df(["datasheet code name", "datasheet title"], [["stocks", "Stocks"], ["flows", "Flows"]])]
+    rows = []
+    for c in spec["comps"]:
+        k = c["kind"]
+        rows.append([c["name"], c["name"].upper() + " comp", "y" if k == "source" else "n", "y" if k == "sink" else "n", "y" if k == "junction" else "n",
+                     1 if c.get("databook") else 0, None, "stocks" if c.get("databook") else None, _type_of(spec, c)])
+    fw.sheets["compartments"] = [_df(["code name", "display name", "is source", "is sink", "is junction", "setup weight", "default value", "databook page", "population type"], rows)]
+    fw.sheets["transitions"] = []
+    for t in types:
+        names = [c["name"] for c in spec["comps"] if _type_of(spec, c) == t]
+        if not names:
+            continue
+        tm = pd.DataFrame(None, index=names, columns=names, dtype=object)
+        for s_, d_, p_ in spec["transitions"]:
+            if s_ not in names:
+                continue
+            cur = tm.loc[s_, d_]
+            tm.loc[s_, d_] = p_ if (cur is None or (isinstance(cur, float) and math.isnan(cur))) else f"{cur},{p_}"
+        tm = tm.reset_index().rename(columns={"index": t})
+        tm.columns.name = None
+        fw.sheets["transitions"].append(tm)
+    rows = []
+    for c in spec.get("characs", []):
+        rows.append([c["name"], c["name"].upper() + " charac", ",".join(c["components"]), c.get("denominator"), 1 if c.get("databook") else 0, None,
+                     "stocks" if c.get("databook") else None, _type_of(spec, c)])
+    if rows:
+        fw.sheets["characteristics"] = [_df(["code name", "display name", "components", "denominator", "setup weight", "default value", "databook page", "population type"], rows)]
+    rows = []
+    for p in spec["pars"]:
+        rows.append([p["name"], p["name"].upper() + " par", p["format"], None, p.get("min"), p.get("max"), p.get("function"), "flows" if p.get("databook", True) else None,
+                     "y" if p.get("targetable") else "n", p.get("timescale"), "y" if p.get("derivative") else "n", "y" if p.get("timed") else "n", _type_of(spec, p)])
+    fw.sheets["parameters"] = [_df(["code name", "display name", "format", "default value", "minimum value", "maximum value", "function", "databook page", "targetable", "timescale", "is derivative", "timed", "population type"], rows)]
+    # with several types the automatic fallback cascade is refused: one explicit single-stage cascade per type
+    fw.sheets["cascades"] = []
+    for t in types:
+        names = [c["name"] for c in spec["comps"] if _type_of(spec, c) == t and c["kind"] == "normal"]
+        if names:
+            fw.sheets["cascades"].append(_df(["cascade_" + t, "constituents"], [["everybody_" + t, ",".join(names)]]))
+    if spec.get("interactions"):
+        fw.sheets["interactions"] = [_df(["code name", "display name", "from population type", "to population type"],
+                                         [[i["name"], i["name"].upper() + " interaction", i.get("from_type") or types[0], i.get("to_type") or types[0]] for i in spec["interactions"]])]
+    fw._validate()
+    return fw
+
+
+def build_data_typed(spec, fw):
+    import atomica as at
+    from atomica.utils import TimeSeries
+
+    start, end, dt = spec["settings"]
+    years = np.arange(math.floor(start), math.floor(start) + 3, 1.0)
+    types = spec["pop_types"]
+    pt = spec.get("pop_type_of") or {}
+    pops = {p: {"label": p.upper() + " pop", "type": pt.get(p) or types[0]} for p in spec["pops"]}
+    transfers = {t["name"]: {"label": t["name"].upper() + " transfer", "type": t.get("pop_type") or types[0]} for t in spec.get("transfers", [])} or 0
+    data = at.ProjectData.new(fw, years, pops=pops, transfers=transfers)
+    for c in list(spec["comps"]) + list(spec.get("characs", [])):
+        if c.get("databook"):
+            for pop in pops_of_item(spec, c):
+                _set_ts(data.tdve[c["name"]].ts[pop], (c.get("init") or {}).get(pop, 0.0))
+    for p in spec["pars"]:
+        if p.get("databook", True):
+            for pop in pops_of_item(spec, p):
+                v = (p.get("value") or {}).get(pop, None)
+                if v is None:
+                    if p.get("function"):
+                        ts = data.tdve[p["name"]].ts[pop]
+                        ts.t, ts.vals, ts.assumption = [], [], None
+                        continue
+                    v = 0.0
+                _set_ts(data.tdve[p["name"]].ts[pop], v)
+    for t in spec.get("transfers", []):
+        tdc = next(x for x in data.transfers if x.code_name == t["name"])
+        tdc.ts.clear()
+        for a, b, v in t["pairs"]:
+            ts = TimeSeries(units=UNITS_LABEL[t["units"]])
+            _set_ts(ts, v)
+            tdc.ts[(a, b)] = ts
+    for it in spec.get("interactions", []):
+        tdc = next(x for x in data.interpops if x.code_name == it["name"])
+        tdc.ts.clear()
+        for a, b, v in it["pairs"]:
+            ts = TimeSeries(units="N.A.")
+            _set_ts(ts, v)
+            tdc.ts[(a, b)] = ts
+    return data
+
+
 def build(spec, with_settings=True):
     """-> (framework, data, parset, settings)"""
     import atomica as at
 
-    fw = build_framework(spec)
-    data = build_data(spec, fw)
+    if spec.get("pop_types"):
+        fw = build_framework_typed(spec)
+        data = build_data_typed(spec, fw)
+    else:
+        fw = build_framework(spec)
+        data = build_data(spec, fw)
     parset = at.ParameterSet(fw, data, "default")
     for pname, yf in (spec.get("y_factors") or {}).items():
         for pop, f in yf.items():
@@ -153,7 +274,35 @@ def build(spec, with_settings=True):
                     par.y_factor[to] = float(yf[f"{frm}>{to}"])
     start, end, dt = spec["settings"]
     settings = at.ProjectSettings(sim_start=start, sim_end=end, sim_dt=dt)
+    if spec.get("scenarios"):
+        parset = apply_scenarios(spec["scenarios"], parset, fw, settings)
     return fw, data, parset, settings
+
+
+def apply_scenarios(scen, parset, fw, settings):
+    """parameter scenarios through the public API (`ParameterScenario.get_parset`); entries that carry the same "group" belong to one
+    scenario; an entry with "hi" gets its skip window closed at that year afterwards (`skip_function = (lo, hi)`)"""
+    import types
+
+    import atomica as at
+
+    stub = types.SimpleNamespace(settings=settings, framework=fw)
+    done = set()
+    for k, s in enumerate(scen):
+        if k in done:
+            continue
+        members = [j for j, s2 in enumerate(scen) if j >= k and s.get("group") is not None and s2.get("group") == s.get("group")] or [k]
+        done.update(members)
+        values = {}
+        for j in members:
+            values.setdefault(scen[j]["par"], {})[scen[j]["pop"]] = {"t": list(scen[j]["t"]), "y": list(scen[j]["y"])}
+        parset = at.ParameterScenario(name="sc%d" % k, scenario_values=values, interpolation=s.get("interp", "linear")).get_parset(parset, stub)
+        for j in members:
+            if scen[j].get("hi") is not None:
+                sk = parset.pars[scen[j]["par"]].skip_function.get(scen[j]["pop"])
+                if sk:
+                    parset.pars[scen[j]["par"]].skip_function[scen[j]["pop"]] = (sk[0], float(scen[j]["hi"]))
+    return parset
 
 
 def build_programs(spec, fw, data):
